@@ -57,6 +57,24 @@ def stamp(instant_ns, off_min, notation, frac_digits=3):
     return lb + core.encode() + rb
 
 
+def line_head(rng, t_written, off, p):
+    """the bytes up to and including the timestamp of a message's first line. Notations 0..3 put the stamp at column 0
+    (cheap: first patterns of s4's table). Notations 4 and 5 put it *inside* the line, where only s4's wide patterns
+    (searched over the first 1024 / 2056 bytes of a line) find it: 4 = a digit-free prefix of a per-file fixed length, then
+    'YYYY-MM-DD HH:MM:SS.f +ZZZZ'; 5 = a JSON-lines record with a "timestamp" member."""
+    if p.notation <= 3:
+        return stamp(t_written, off, p.notation, p.frac_digits)
+    y, mo, d, h, mi, sec, ns = civil(t_written, off)
+    frac = ("%09d" % ns)[:p.frac_digits]
+    if p.notation == 4:
+        pre = bytes(rng.choice(LETTERS + b"  ._-") for _ in range(p.prefix_len))
+        core = "%04d-%02d-%02d %02d:%02d:%02d.%s %s" % (y, mo, d, h, mi, sec, frac, fmt_offset(off, 1))
+        return (pre + b" " if pre else b"") + core.encode()
+    lvl = bytes(rng.choice(LETTERS) for _ in range(p.prefix_len))
+    core = "%04d-%02d-%02dT%02d:%02d:%02d.%s%s" % (y, mo, d, h, mi, sec, frac, fmt_offset(off, 2))
+    return b'{"level":"' + lvl + b'","timestamp":"' + core.encode() + b'","message":"'
+
+
 # ------------------------------------------------------------------------------------------------
 # text logs
 
@@ -143,6 +161,7 @@ class TextLogParams:
         self.t0 = 946684800_000_000_000  # 2000-01-01
         self.steps = (0, 0, 1_000_000, 1_000_000_000, 3_600_000_000_000)
         self.body_len = (0, 40)
+        self.prefix_len = 0              # notations 4 / 5: bytes before the stamp (fixed per file)
         self.__dict__.update(kw)
 
 
@@ -169,7 +188,7 @@ def gen_text_log(rng, p):
         t_written = t - (t % (10 ** (9 - p.frac_digits)))
         tag = p.src_letter + tag26(i)
         start = len(out)
-        head = stamp(t_written, off, p.notation, p.frac_digits) + b" " + tag
+        head = line_head(rng, t_written, off, p) + b" " + tag
         lines = [head]
         ncont = rng.randint(1, p.max_cont) if rng.random() < p.cont_p else 0
         for _ in range(ncont):
